@@ -95,6 +95,13 @@ func main() {
 		for _, pk := range p.Pkgs {
 			fmt.Println(pk.PkgPath, len(pk.GoFiles))
 		}
+	case "c07list":
+		p, err := load.Load(load.Options{})
+		if err != nil {
+			fmt.Println("load error:", err)
+			os.Exit(2)
+		}
+		checks.C07ListDebug(p, os.Args[2])
 	case "c07dump":
 		p, err := load.Load(load.Options{})
 		if err != nil {
